@@ -5,6 +5,8 @@ set -u
 name=$1; patch=$2; demo=$3; py=$4; shift 4
 cd /repo
 if [ -n "$(git status --porcelain)" ]; then echo "repo not clean"; exit 2; fi
+SKIPCHECK=${SKIPCHECK:-}
+mkdir -p /repo/_seeded && cp "$(dirname "$demo")"/*.py /repo/_seeded/ 2>/dev/null; demo=/repo/_seeded/$(basename "$demo")
 run_demo() {
 	if [ "$py" = "313" ]; then (cd /repo && PYTHONPATH=/repo:/venv/lib/python3.12/site-packages timeout 600 /root/.pyenv/versions/3.13.0/bin/python "$demo" >/tmp/seed_demo.log 2>&1); else (cd /repo && PYTHONPATH=/repo timeout 600 /venv/bin/python "$demo" >/tmp/seed_demo.log 2>&1); fi
 	echo $?
@@ -18,4 +20,4 @@ for p in "$@"; do
 	(cd /verif && ./check $p 2>&1 | grep -E "VIOLATION|KNOWN|obligations discharged|MACHINERY" | head -8; echo "   exit=${PIPESTATUS[0]}")
 done
 git checkout -- . ; git status --porcelain | head -3
-rm -rf /repo/.cache 2>/dev/null
+rm -rf /repo/.cache /repo/_seeded 2>/dev/null
